@@ -88,6 +88,31 @@ fn one(line: &str) -> String {
     out
 }
 
+/// `<id> slow <hold-ms> 0 0 0 <deadline-s>`: one holder keeps its injector (with a fake installed) for a LONG time while a preventer and an
+/// injector of other threads wait; when it finally lets go each of them must get its turn (however long it had to wait) and see the right view.
+fn slow(line: &str) -> String {
+    let t: Vec<&str> = line.split_whitespace().collect();
+    let (id, hold) = (t[0].to_string(), t[2].parse::<u64>().unwrap());
+    let t0 = std::time::Instant::now();
+    let (tx, rx) = std::sync::mpsc::channel::<()>();
+    let a = std::thread::spawn(move || {
+        let mut inj = InjectorPP::new();
+        inj.when_called(injectorpp::func!(fn (shared)(u64) -> u64)).will_execute_raw(lk(0));
+        let _ = tx.send(());
+        std::thread::sleep(std::time::Duration::from_millis(hold));
+        let v = call_shared();
+        drop(inj);
+        v
+    });
+    rx.recv().unwrap();
+    let b = std::thread::spawn(|| catch_unwind(|| { let p = InjectorPP::prevent(); let v = call_shared(); drop(p); v }));
+    let c = std::thread::spawn(|| catch_unwind(|| { let mut inj = InjectorPP::new(); inj.when_called(injectorpp::func!(fn (shared)(u64) -> u64)).will_execute_raw(lk(2)); let v = call_shared(); drop(inj); v }));
+    let va = a.join().map(|v| v.to_string()).unwrap_or("panicked".into());
+    let show = |r: std::thread::Result<std::thread::Result<u64>>| match r { Ok(Ok(v)) => v.to_string(), Ok(Err(e)) => format!("panicked:{}", util::panic_msg(&e).replace(' ', "_")), Err(_) => "died".into() };
+    let (vb, vc) = (show(b.join()), show(c.join()));
+    format!("{id} SLOW holder={va} preventer={vb} injector={vc} after={} elapsed_ms={}\n", call_shared(), t0.elapsed().as_millis())
+}
+
 pub fn main(_args: &[String]) {
     std::panic::set_hook(Box::new(|_| {}));
     let stdin = std::io::stdin();
@@ -97,7 +122,7 @@ pub fn main(_args: &[String]) {
         if l.is_empty() { continue; }
         let id = l.split_whitespace().next().unwrap().to_string();
         util::DEADLINE_SECS.store(l.split_whitespace().nth(5).and_then(|x| x.parse().ok()).unwrap_or(120), SeqCst);     // watchdog: <id> <threads> <iters> <seed> <slow-us> [<deadline-s>]
-        let (st, o) = util::fork_run(|| one(&l));
+        let (st, o) = util::fork_run(|| if l.split_whitespace().nth(1) == Some("slow") { slow(&l) } else { one(&l) });
         util::emit(&o);
         util::emit(&format!("{id} CHILD {st}\n"));
     }
